@@ -385,6 +385,15 @@ pub fn run(out: &mut Out, tier: &str, seed: u64, prop: &str) {
             round_trip(out, &text, &vars);
         }
     }
+    // ---- corpus of minimised past failures, first ------------------------------------------------------
+    if prop == "C06" || prop == "C18" {
+        for line in std::fs::read_to_string("/verif/corpus/req.txt").unwrap_or_default().lines() {
+            if line.starts_with('#') || line.is_empty() { continue; }
+            let text = unescape(line);
+            req_case(out, &mut w, &mut rc, prop, &text, &vars);
+            out.stat("corpus.cases");
+        }
+    }
     // ---- hostile ---------------------------------------------------------------------------------------
     if prop == "C06" {
         let n = if big { 8000 } else { 1500 };
@@ -612,4 +621,18 @@ fn url_rule_oracle(out: &mut Out, text: &str, after_at: &str, ans: &str, vars: &
         }
         out.stat("c18.accepted");
     } else { out.stat("c18.rejected"); }
+}
+
+/// `\u{XXXX}` escapes in corpus files
+pub fn unescape(s: &str) -> String {
+    let mut out = String::new();
+    let mut rest = s;
+    while let Some(i) = rest.find("\\u{") {
+        out.push_str(&rest[..i]);
+        let j = rest[i..].find('}').unwrap() + i;
+        out.push(char::from_u32(u32::from_str_radix(&rest[i + 3..j], 16).unwrap()).unwrap());
+        rest = &rest[j + 1..];
+    }
+    out.push_str(rest);
+    out
 }
